@@ -1,6 +1,8 @@
 package engine
 
 import (
+	"bytes"
+	"encoding/base64"
 	"encoding/json"
 	"fmt"
 	"os"
@@ -95,13 +97,43 @@ func ParseTime(s string) (time.Time, error) {
 	return t.UTC(), err
 }
 
+// EncodeMsg writes a message into the trace: as readable JSON when that carries the message
+// exactly, otherwise (values the wire format can carry and JSON cannot, e.g. a timestamp beyond
+// year 9999) as the protobuf bytes of its Any.
 func EncodeMsg(m sdk.Msg) (json.RawMessage, error) {
-	bz, err := GetEncoding().Cdc.MarshalInterfaceJSON(m)
-	return json.RawMessage(bz), err
+	cdc := GetEncoding().Cdc
+	want, err := cdc.MarshalInterface(m)
+	if err != nil {
+		return nil, err
+	}
+	if bz, err := cdc.MarshalInterfaceJSON(m); err == nil {
+		if back, err := DecodeMsg(bz); err == nil {
+			if got, err := cdc.MarshalInterface(back); err == nil && bytes.Equal(got, want) {
+				return json.RawMessage(bz), nil
+			}
+		}
+	}
+	out, _ := json.Marshal(map[string]string{"@bin": base64.StdEncoding.EncodeToString(want), "@type": sdk.MsgTypeURL(m)})
+	return json.RawMessage(out), nil
 }
 
 func DecodeMsg(bz json.RawMessage) (sdk.Msg, error) {
 	var m sdk.Msg
+	if bytes.Contains(bz, []byte(`"@bin"`)) {
+		var b struct {
+			Bin string `json:"@bin"`
+		}
+		if err := json.Unmarshal(bz, &b); err == nil && b.Bin != "" {
+			raw, err := base64.StdEncoding.DecodeString(b.Bin)
+			if err != nil {
+				return nil, err
+			}
+			if err := GetEncoding().Cdc.UnmarshalInterface(raw, &m); err != nil {
+				return nil, err
+			}
+			return m, nil
+		}
+	}
 	if err := GetEncoding().Cdc.UnmarshalInterfaceJSON(bz, &m); err != nil {
 		return nil, err
 	}
